@@ -32,8 +32,8 @@
       computes;
     - becameNecessaryRecursive registers a Map's input before the Map (Go: after linking);
       the two touch different nodes;
-    - all passes succeed (predicates do not return errors), all nodes live in the top scope
-      (a sentinel's height is 0).
+    - all nodes live in the top scope (a sentinel's height is 0); a pass stopped by a failing
+      predicate is [OStabilizeStopped], see there.
 
     [cfg] holds one switch per repaired line; [head] (all true) is /repo at HEAD:
       cfg_relink_on_return  640a5e6  zeroNode removes the sentinel's child entry and
@@ -41,16 +41,20 @@
       cfg_order_watch_edge  2d28149  watchNode / becameNecessaryRecursive raise the watched
                                      node above its sentinel
       cfg_start_attached    8b0f30c  watchNode queues the sentinel if the watched node is in
-                                     the graph *)
+                                     the graph
+    and one for a line that a seeded change removed on the parallel path:
+      cfg_requeue_panicked           recomputePanicked puts the node whose function panicked
+                                     back on the recompute heap *)
 From incr Require Import Base.
 Local Open Scope nat_scope.
 
 Record cfg := Cfg {
   cfg_relink_on_return : bool;
   cfg_order_watch_edge : bool;
-  cfg_start_attached : bool
+  cfg_start_attached : bool;
+  cfg_requeue_panicked : bool
 }.
-Definition head : cfg := Cfg true true true.
+Definition head : cfg := Cfg true true true true.
 
 Record fn := Aff { fa : Z; fb : Z }.
 Definition apply (f : fn) (x : Z) : Z := (fa f * x + fb f)%Z.
@@ -106,6 +110,9 @@ Definition zeroed (x : node) : node :=
 (* SetStale *)
 Definition staled (x : node) (n : nat) : node :=
   Node (kind_ x) (val x) (height x) (reg x) (obs x) (rAt x) (cAt x) n true (watched x) (lchild x) (lparent x).
+(* recomputePanicked: recomputedAt = 0 *)
+Definition panicked_ (x : node) : node :=
+  Node (kind_ x) (val x) (height x) (reg x) (obs x) 0 (cAt x) (sAt x) (queued x) (watched x) (lchild x) (lparent x).
 (* taken off the heap and recomputed at pass [n]; [chg]: not cut off *)
 Definition ran (x : node) (n : nat) (chg : bool) (v : Z) : node :=
   Node (kind_ x) v (height x) (reg x) (obs x) n (if chg then n else cAt x) (sAt x) false (watched x) (lchild x) (lparent x).
@@ -202,7 +209,8 @@ Inductive op :=
 | OUnobserve (n : nid)
 | OSetVar (n : nid) (v : Z)
 | OUnwatch (x : nid)
-| OStabilize (fires : list nid).
+| OStabilize (fires : list nid)
+| OStabilizeStopped (fires ran failed panicked : list nid).
 
 Definition NewVar (l : list node) (v : Z) : list node :=
   l ++ [Node KVar v 0 false 0 0 0 0 false None false false].
@@ -324,6 +332,54 @@ Definition Stabilize (s : state) (fires : list nid) : state * plog :=
   let '(l, g) := stabLoop (length (nodes s)) N fires (nodes s) plog0 in
   (State (S N) (requeue N l), g).
 
+(** ** a pass stopped by a failing predicate
+
+    A sentinel's predicate (sentinelIncr.Cutoff) returns an error or panics.  Sentinels sit
+    at height 0, so whatever the heap handed out before the pass stopped sat at height 0 as
+    well; under Stabilize a node recomputed directly after its input (the "held child"
+    chain) may sit higher.  The pass is given by the nodes that were recomputed, in an order
+    in which inputs precede dependents ([ran]; Stabilize: the height-0 nodes the heap handed
+    out before the first failing sentinel, with the chains of dependents recomputed directly
+    after them; ParallelStabilize: the rest of the height-0 block) and the sentinels whose
+    predicate was evaluated and failed ([failed]: returned an
+    error, recomputeFailed puts recomputedAt back and the node back on the heap; [panicked]:
+    recomputePanicked sets recomputedAt to 0 and puts the node back).  Which nodes these are
+    depends on the order inside the heap's height-0 block, which this model does not fix: the
+    lists are a parameter of the operation, the harness reports them, and the theorems hold
+    for every choice.  Nothing is done for a listed node that is not [runnable].
+    The pass ends as every pass does: "always" nodes that ran are requeued, the stabilization
+    number advances.  (With [failed] and [panicked] empty this is a pass stopped by a
+    cancelled context.) *)
+(* a listed node is recomputed if it is queued and either sits at height 0 or is a Map whose
+   input was recomputed in this pass (recomputeNodeSerial hands a single-input dependent
+   straight back to Graph.recompute, ahead of whatever is still queued at height 0) *)
+Definition runnable (N : nat) (l : list node) (k : nid) : bool :=
+  queued (nd l k) &&
+  ((height (nd l k) =? 0) ||
+   match kind_ (nd l k) with KMap _ a => rAt (nd l a) =? N | _ => false end).
+
+Definition runListed (N : nat) (fires skip : list nid) (lg : list node * plog) (k : nid) : list node * plog :=
+  if runnable N (fst lg) k && negb (inb k skip)
+  then stepNode N fires (fst lg) k (snd lg) else lg.
+
+Definition failStep (c : cfg) (pan : bool) (lg : list node * plog) (x : nid) : list node * plog :=
+  if queued (nd (fst lg) x) && isSent (nd (fst lg) x)
+  then (if pan
+        then upd (fst lg) x (fun y => if cfg_requeue_panicked c then panicked_ y else set_queued (panicked_ y) false)
+        else fst lg,
+        PLog (runs (snd lg)) (evals (snd lg) ++ [x]))
+  else lg.
+
+Definition stoppedLoop (c : cfg) (N : nat) (fires ran failed panicked : list nid) (l : list node) : list node * plog :=
+  let lg := fold_left (runListed N fires (failed ++ panicked)) ran (l, plog0) in
+  let lg := fold_left (failStep c false) failed lg in
+  fold_left (failStep c true) panicked lg.
+
+Definition StabilizeStopped (c : cfg) (s : state) (fires ran failed panicked : list nid) : state * plog :=
+  let N := num s in
+  let lg := stoppedLoop c N fires ran failed panicked (nodes s) in
+  (State (S N) (requeue N (fst lg)), snd lg).
+
 Definition step (c : cfg) (s : state) (o : op) : state * plog :=
   match o with
   | ONewVar v => (State (num s) (NewVar (nodes s) v), plog0)
@@ -334,6 +390,7 @@ Definition step (c : cfg) (s : state) (o : op) : state * plog :=
   | OSetVar n v => (State (num s) (SetVar s n v), plog0)
   | OUnwatch x => (State (num s) (Unwatch (nodes s) x), plog0)
   | OStabilize fires => Stabilize s fires
+  | OStabilizeStopped fires ran failed panicked => StabilizeStopped c s fires ran failed panicked
   end.
 
 Definition run (c : cfg) (s : state) (ops : list op) : state :=
@@ -354,6 +411,10 @@ Inductive scratch (l : list node) : nid -> Z -> Prop :=
 (** the log of the pass that an [OStabilize] at the end of a history performs *)
 Definition last_pass (c : cfg) (ops : list op) (fires : list nid) : state * plog :=
   Stabilize (run c init ops) fires.
+
+(** the stopped pass that an [OStabilizeStopped] at the end of a history performs *)
+Definition last_stopped (c : cfg) (ops : list op) (fires ran failed panicked : list nid) : state * plog :=
+  StabilizeStopped c (run c init ops) fires ran failed panicked.
 
 Definition count_runs (n : nid) (g : plog) : nat :=
   length (filter (fun r => fst r = n) (runs g)).
@@ -395,6 +456,17 @@ Definition pass_stmt (c : cfg) (ops : list op) (fires : list nid) (x w : nid) : 
   count_evals x g = 1 /\
   (x ∈ fires -> isMap (nd l w) = true -> count_runs w g = 1).
 
+(** Statement 5a.  After a stopped pass every watching sentinel whose node is in the graph is
+    queued and its watch edge is intact. *)
+Definition stopped_stmt (c : cfg) (ops : list op) (fires ran failed panicked : list nid) (x w : nid) : Prop :=
+  let l := nodes (fst (last_stopped c ops fires ran failed panicked)) in
+  watched (nd l x) = Some w -> reg (nd l w) = true ->
+  queued (nd l x) = true /\ lchild (nd l x) = true /\ lparent (nd l x) = true /\
+  height (nd l x) < height (nd l w).
+
 (** operations that neither write a var nor make anything necessary *)
 Definition quiet (o : op) : Prop :=
-  match o with OSetVar _ _ | OObserve _ | OStabilize (_ :: _) => False | _ => True end.
+  match o with
+  | OSetVar _ _ | OObserve _ | OStabilize (_ :: _) | OStabilizeStopped _ _ _ _ => False
+  | _ => True
+  end.
